@@ -388,6 +388,39 @@ theorem C03_reject_operand_unreadable (T : Tables) (hT : noBlankHead T) (lead pi
     (C03_reject_unreadable T hT (strip piece) hnum hsys hno)
 
 
+/-- REJECTION, TEXT LEVEL, ANY DEPTH.  `BadText T s` (Lemmas/C03q) describes, purely on the
+    characters of `s`, a text in which the scan of `UnitSolver` reaches an operand the atom parser
+    refuses — at the start, behind an operator sign, inside the first parenthesised group (to any
+    nesting depth, recursively) or behind it — or whose first `(` is never closed; what follows
+    the offending place is ARBITRARY.  Every such text is rejected by `UnitSolver(text)`,
+    `BaseUnits(text)` and `Quantity(1,text)` with the same error, which is not the fuel error. -/
+theorem C03_reject_text (T : Tables) (s : Str) (h : BadText T s) :
+    ∃ err, unitSolver T s = .error err ∧ err ≠ .fuel ∧
+      baseUnitsOfText T s = .error err ∧ quantityOfText T s = .error err := by
+  obtain ⟨err, herr⟩ := unitSolver_badText T s h
+  refine ⟨err, herr, ?_, ?_, ?_⟩
+  · intro h; rw [h] at herr; exact unitSolver_no_fuel T _ herr
+  · unfold baseUnitsOfText; rw [herr]
+  · unfold quantityOfText; rw [herr]
+
+/-- … with the property's reasons for the refusal of the operand (not a number literal, not a
+    system-unit text, no reading as admissible prefix ++ symbol ++ exponent characters) as the
+    hypothesis of the base case: such an operand, put behind `pre op` (any parenthesis-free `pre`)
+    and inside one more parenthesised group `pre2 ( … ) tail`, is rejected. -/
+theorem C03_reject_nested_unreadable (T : Tables) (hT : noBlankHead T) (piece post : Str)
+    (hp : tokPlain piece) (hpost : stopsAt post) (hne : strip piece ≠ [])
+    (hnum : numberParts (strip piece) = none)
+    (hsys : ∀ n e, unitParse T (strip piece) ≠ .ok (.sys n, e))
+    (hno : ∀ p b x, strip piece = p ++ b ++ x → ¬ admissible T p b)
+    (pre pre2 inner tail : Str) (op : Char) (hpre : '(' ∉ pre) (hop : op = '*' ∨ op = '/')
+    (hpre2 : '(' ∉ pre2) (hin : innerOk inner 1 = true) (hinner : strip inner = pre ++ op :: (piece ++ post)) :
+    ∃ err, unitSolver T (pre2 ++ '(' :: (inner ++ ')' :: tail)) = .error err ∧ err ≠ .fuel := by
+  have h0 : BadText T (piece ++ post) :=
+    .first piece post hp hpost hne (C03_reject_unreadable T hT (strip piece) hnum hsys hno)
+  have h1 : BadText T (strip inner) := hinner ▸ .afterOp pre op _ hpre hop h0
+  obtain ⟨err, h, hf, _⟩ := C03_reject_text T _ (.inPar pre2 inner tail hpre2 hin h1)
+  exact ⟨err, h, hf⟩
+
 /-! ## non-vacuity: concrete instances of the hypotheses and of the conclusions -/
 example : ∃ u ∈ Gen.tables.units, u.sym = ['m'] ∧ ['d','a'] ∈ [] :: admPrefixes Gen.tables u := by
   decide +kernel
@@ -433,5 +466,27 @@ example : ∃ err, unitSolver Gen.tables ("kg *".toList ++ " xkm ".toList ++ "/(
   refine C03_reject_operand Gen.tables _ _ _ (Or.inr ⟨"kg ".toList, '*', rfl, Or.inl rfl, by decide⟩)
     (by intro c hc; simp at hc; rcases hc with rfl | rfl | rfl | rfl | rfl <;> decide)
     (Or.inr ⟨'/', "(s".toList, rfl, Or.inr (Or.inr rfl)⟩) (by decide) ⟨.badPrefix, by decide +kernel⟩
+
+/-- `kg*(m/( xkm *s)) /J(` : the refused operand `xkm` two groups deep, an unbalanced rest behind
+    — an instance of `BadText` on the shipped table; and `m*(s` (group never closed) -/
+example : BadText Gen.tables ("kg*(m/( xkm *s)) /J(".toList) ∧ BadText Gen.tables ("m*(s".toList) := by
+  have hp : tokPlain "xkm ".toList := by
+    intro c hc; simp at hc; rcases hc with rfl | rfl | rfl | rfl <;> decide
+  have h0 : BadText Gen.tables ("xkm ".toList ++ "*s".toList) :=
+    .first _ _ hp (Or.inr ⟨'*', ['s'], rfl, Or.inr (Or.inl rfl)⟩) (by decide) ⟨.badPrefix, by decide +kernel⟩
+  have e1 : strip " xkm *s".toList = "xkm ".toList ++ "*s".toList := by decide
+  have h1 : BadText Gen.tables ([] ++ '(' :: (" xkm *s".toList ++ ')' :: [])) :=
+    .inPar [] _ [] (by simp) (by decide) (by rw [e1]; exact h0)
+  have h2 : BadText Gen.tables ("m".toList ++ '/' :: ([] ++ '(' :: (" xkm *s".toList ++ ')' :: []))) :=
+    .afterOp _ '/' _ (by decide) (Or.inr rfl) h1
+  have e2 : strip "m/( xkm *s)".toList =
+      "m".toList ++ '/' :: ([] ++ '(' :: (" xkm *s".toList ++ ')' :: [])) := by decide
+  have h3 : BadText Gen.tables ([] ++ '(' :: ("m/( xkm *s)".toList ++ ')' :: " /J(".toList)) :=
+    .inPar [] _ _ (by simp) (by decide) (by rw [e2]; exact h2)
+  have h4 : BadText Gen.tables
+      ("kg".toList ++ '*' :: ([] ++ '(' :: ("m/( xkm *s)".toList ++ ')' :: " /J(".toList))) :=
+    .afterOp _ '*' _ (by decide) (Or.inl rfl) h3
+  exact ⟨h4, .afterOp "m".toList '*' "(s".toList (by decide) (Or.inl rfl)
+    (.open [] "s".toList (by simp) (by decide))⟩
 
 end SciVerif.C03
